@@ -822,6 +822,9 @@ addmember(struct structbuilder *b, struct qualtype mt, char *name, int align, un
 			m->bits.after = mt.type->size * 8 - width;
 			if (t->size < mt.type->size)
 				t->size = mt.type->size;
+		} else if (t->size < (width + 7) / 8) {
+			/* an unnamed bit-field still occupies storage */
+			t->size = (width + 7) / 8;
 		}
 	}
 	if (m && t->align < align)
